@@ -19,7 +19,7 @@ RULE = (
     "performs an event write (insert, bulk insert of 0..5 or occasionally 49..230 events with and without ids, replace, replace_last, delete) or occasionally a read. Oracle with the C06 observers: a flush moment is any "
     "COMMIT statement or any operation return at which the second connection's dump equals the writer's; for each event write at clock time t with f the latest "
     "earlier flush (store creation counts): if t - f >= 11 s then after the write returns the second connection must see the writer's state (the write itself is "
-    "durable). Nothing is demanded for t - f <= 9 s. Thorough adds real time: child processes write, sleep 11..12 s, write again, and the parent inspects the file "
+    "durable). Nothing is demanded for t - f <= 9 s. The controlled clock starts in 2001, 2023 or 2096. Real time as well (4 children in quick, 16 in thorough): child processes write, sleep 11..12 s, write again, and the parent inspects the file "
     "through a fresh connection. Non-trivial = some write follows a >= 11 s pause while 1..49 writes are pending (the count threshold cannot explain the flush)."
 )
 ASSUMPTIONS = [
@@ -62,7 +62,9 @@ def strategy(draw, tier="quick"):
         n = draw(st.integers(int(11 / gap) + 1, min(49, int(11 / gap) + 12)))
         at = draw(st.integers(0, len(ops)))
         ops[at:at] = [{"op": "read", "b": 0, "kind": "count", "adv": 0}] + [{"op": "insert", "b": 0, "e": [i % 50, 1, "b"], "adv": gap} for i in range(n)]
-    return {"ops": ops}
+    # where the controlled clock starts: long before or long after the real present, so that an instant the store took from
+    # anywhere else (the real clock, a value frozen at import) is far off in one direction or the other
+    return {"ops": ops, "clock_base": draw(st.sampled_from([1_000_000_000, 1_700_000_000, 4_000_000_000]))}
 
 
 def known_key(case, v):
@@ -128,7 +130,7 @@ class Oracle:
 def run_case(case):
     path = env.fresh_path(".db")
     r = None
-    with stores.FakeClock() as clock:
+    with stores.FakeClock(float(case.get("clock_base", 1_700_000_000))) as clock:
         orc = Oracle(path, clock)
         try:
             with sut("sqlite: running the history"):
@@ -173,9 +175,9 @@ time.sleep(600)
 
 
 def extra_phases(tier, seed, jobs):
-    if tier != "thorough":
-        return []
     kinds = ["insert", "replace_last", "delete", "bulk"]
+    if tier != "thorough":  # one child per kind of write; they sleep side by side, so this costs about twelve seconds of wall clock
+        return [("realtime", "phase_realtime", [{"pause": 11.0 + w * 0.25, "kind": kinds[w], "w": w} for w in range(4)])]
     return [("realtime", "phase_realtime", [{"pause": 11.0 + (w % 5) * 0.25, "kind": kinds[w % 4], "w": w} for w in range(jobs)])]
 
 
